@@ -637,6 +637,48 @@ func execStall(c StallCase) kit.Outcome {
 			return o
 		}
 	}
+	// the subscriber that stopped reading starts again. The server may have dropped it (the stream then
+	// ends, possibly inside a message); if it is still connected when everything has been read, what it
+	// received is the stream of one well-formed message after the other - nothing half-written in the
+	// middle - and, being still subscribed, it has missed nothing.
+	var got []string
+	dropped := false
+	for {
+		v, err := stalled.Read(1500 * time.Millisecond)
+		if err != nil {
+			if _, isFraming := err.(*respx.FramingError); isFraming {
+				o.Fail = fmt.Sprintf("the subscriber that had stopped reading resumed: after %d complete messages its stream is not well-formed (%v): a message was written partly and others followed", len(got), err)
+				return o
+			}
+			if err != srv.ErrTimeout {
+				dropped = true // connection closed by the server
+			}
+			break
+		}
+		if v.Kind != respx.Array || len(v.Arr) != 3 || string(v.Arr[0].Str) != "message" || string(v.Arr[1].Str) != ch {
+			o.Fail = fmt.Sprintf("the subscriber that had stopped reading resumed and received %.120s after %d messages", v.String(), len(got))
+			return o
+		}
+		p := string(v.Arr[2].Str)
+		if i := strings.IndexByte(p, '|'); i > 0 {
+			p = p[:i]
+		}
+		got = append(got, p)
+	}
+	for i, p := range got {
+		if p != fmt.Sprintf("p0:%d", i) {
+			o.Fail = fmt.Sprintf("the subscriber that had stopped reading resumed: message %d of its stream is %q (published in order p0:0, p0:1, ...): a message was skipped or repeated while it stayed subscribed", i, p)
+			return o
+		}
+	}
+	if dropped {
+		o.Labels = append(o.Labels, "stalled-subscriber-was-dropped")
+	} else {
+		o.Labels = append(o.Labels, "stalled-subscriber-stayed")
+		if len(got) != c.Messages {
+			o.Fail = fmt.Sprintf("the subscriber that had stopped reading is still connected and subscribed after it resumed, but received %d of the %d messages published meanwhile", len(got), c.Messages)
+		}
+	}
 	return o
 }
 
